@@ -6,8 +6,8 @@
    `...Error...` lines of the build log).  Files that use it start with `Set Printing Width 400.` *)
 Ltac tie1 :=
   lazymatch goal with
-  | |- ?L = _ => first [ vm_compute; reflexivity | fail 2 "TieError:" L "(generated from the source under test) differs from the copy the model was written for" ]
-  | |- ?G => first [ vm_compute; reflexivity | fail 2 "TieError:" G "no longer holds of the tables generated from the source" ]
+  | |- ?L = _ => first [ vm_compute; reflexivity | fail 1 "TieError:" L "(generated from the source under test) differs from the copy the model was written for" ]
+  | |- ?G => first [ vm_compute; reflexivity | fail 1 "TieError:" G "no longer holds of the tables generated from the source" ]
   end.
 (* conjunctions are split first, so that the message names the one equation that broke *)
 Ltac tie := repeat (lazymatch goal with |- _ /\ _ => split end); tie1.
